@@ -5,12 +5,12 @@ from .. import pipeline, mqnet, protocol, pairfeed
 
 ID = 'C06'
 MODULES = ['OFModel.Zmq.Receiver', 'OFModel.Zmq.Sender', 'OFModel.Zmq.Pair', 'OFModel.Gen.Facts']
-PROP_FILES = ['C06', 'PairRecv', 'PairSend', 'C06Live']
+PROP_FILES = ['C06', 'PairRecv', 'PairSend', 'C06Live', 'PairFair', 'C06Fair']
 LEVEL = 'proof'
 RULE = ('(1) closed pair (OFProps/C06Live.lean): a REAL ZMQSender and a REAL ZMQReceiver wired through fakezmq run random schedules of send | recv | restart consumer | restart publisher '
         '(graceful or crash, anywhere), compared event by event with the Lean model OF.Pair (messages published, requests pushed, sets returned, client table, ids, buffers, channel lengths), '
         'followed by the constant healing schedule of theorem C06_pair_recovers_const (3 sends now, 1 recv, 4 rounds [send; recv] one connection time-out later - the time-out read off the real client table); oracle: the real consumer returns a new frame set within these 12 events '
-        'and ids per consumer incarnation stay strictly increasing.  '
+        'and ids per consumer incarnation stay strictly increasing; fairness (C06_pair_fair_heals): the same with a RANDOM FAIR continuation instead - any interleaving with three sends now and, one time-out later, five send/recv alternations - oracle pair-fair-not-recovered.  '
         '(2) MQNet fault campaign on chain / tee / tee-rejoin pipelines with an endless source: victim = every filter in turn (source, relay, sink; required and not required), '
         'fault = kill at a random virtual time + restart after {0, 0.3, 1, 7 s} | kill for ever (non-required consumer) | stall for 0.5-8 s; delays 0-60 ms. '
         'Oracle (exploration): within 15 virtual seconds after the fault ends every live sink has been handed a new frame, and sequence numbers stay strictly increasing at every node. '
@@ -155,10 +155,51 @@ def pair_campaign(ctx, n):
     res.extra['pair_natural_polls_until_recovery(exploration)'] = {str(k): v for k, v in sorted(nat.items(), key=lambda x: (x[0] is None, x[0]))}
 
 
+def pair_fair_campaign(ctx, n):
+    """Fairness is enough (C06_pair_fair_heals): random reachable prefix, then a random FAIR continuation - no cooperation of the scheduler -
+    on the real classes; oracle pair-fair-not-recovered; the same schedule through OF.Pair, compared event by event."""
+    logging.disable(logging.CRITICAL)
+    res, rng = ctx.result, ctx.rng
+    trials = [dict(c['trial']) for c in ctx.corpus if c.get('feed') == 'pair-fair']
+    if ctx.replay and ctx.replay.get('case', {}).get('feed') == 'pair-fair': trials = [dict(ctx.replay['case']['trial'])]; n = 0
+    for _ in range(n): trials.append({'prefix': pairfeed.gen_prefix(rng), 'heal': None})
+    obs = [pairfeed.run_impl(t, fair_rng=rng) for t in trials]
+    model = ctx.driver.batch([pairfeed.model_request(t) for t in trials]) if ctx.driver else None
+    lens, when = {}, {}
+    for idx, (t, o) in enumerate(zip(trials, obs)):
+        nfaults = sum(1 for e in t['prefix'] if e['k'] in ('rc', 'rp'))
+        res.note({'feed': 'pair-fair', 'prefix_events': len(t['prefix']), 'faults': nfaults, 'fair_events': len(t['heal'])}, nontrivial=False)
+        res.nontrivial.add(f'pair-fair:{ctx.seed}:{idx}:{len(t["prefix"])}:{len(t["heal"])}')
+        b = (len(t['heal']) // 10) * 10; lens[f'{b}-{b + 9}'] = lens.get(f'{b}-{b + 9}', 0) + 1
+        k = pairfeed.first_recovery_index(t, o)
+        kb = 'none' if k is None else f'{(k // 5) * 5}-{(k // 5) * 5 + 4}'; when[kb] = when.get(kb, 0) + 1
+        for key, what in pairfeed.oracles(t, o)[:1]:
+            key = 'pair-fair-not-recovered' if key == 'pair-not-recovered' else key
+            what = what.replace('healing schedule', 'fair continuation (3 sends now, then 5 send/recv alternations one time-out later, any interleaving)')
+            res.violations.append(Violation(key, what, {'feed': 'pair-fair', 'trial': {k2: t[k2] for k2 in ('prefix', 'heal', 'prev_at_fault')}}))
+        if model is not None:
+            r = model[idx]
+            if 'err' in r:
+                res.disagreements.append({'point': 'pair.run', 'case': {'feed': 'pair-fair', 'trial': t}, 'impl': None, 'model': r}); continue
+            m = pairfeed.canon_model(r)
+            io = [(a, b2) for a, b2 in o]
+            if m != io:
+                ci = next((i for i, (a, b2) in enumerate(zip(io, m)) if a != b2), min(len(io), len(m)))
+                res.disagreements.append({'point': f'pair (fair continuation) event #{ci}: real ZMQSender/ZMQReceiver vs OF.Pair.step',
+                                          'case': {'feed': 'pair-fair', 'trial': {k2: t[k2] for k2 in ('prefix', 'heal')}},
+                                          'impl': io[ci] if ci < len(io) else None, 'model': m[ci] if ci < len(m) else None})
+            else:
+                res.traces_validated += 1
+    res.extra['pair_fair_trials'] = len(trials)
+    res.extra['pair_fair_schedule_lengths'] = lens
+    res.extra['pair_fair_events_until_recovery'] = when
+
+
 def run(ctx):
     logging.disable(logging.CRITICAL)
     res, rng = ctx.result, ctx.rng
     pair_campaign(ctx, 6000 if ctx.thorough else (1200 if ctx.escalate else 500))
+    pair_fair_campaign(ctx, 3000 if ctx.thorough else (600 if ctx.escalate else 250))
     n = 1000 if ctx.thorough else (150 if ctx.escalate else 40)
     cases = [c for c in ctx.corpus if 'faults' in c]
     if ctx.replay and ctx.replay.get('case', {}).get('faults'): cases = [ctx.replay['case']]; n = 0
